@@ -277,3 +277,67 @@ Theorem C11_row_read_after_port_write md st doms wi ri a : wf_md md = true -> wf
   spec_apply (md_shape md) (spec_writes (all_sacts md wi) doms) a (tb_get md st a).
 Proof. intros Hmd Hst. exact (tb_get_after_port_write md st Hmd Hst doms wi ri a). Qed.
 Print Assumptions C11_row_read_after_port_write.
+
+(* ------------------------------------------------------------------ configurations as the constructors derive them *)
+(* every (shape, depth, granularities) Memory / WritePort.Signature accept for a plain shape (wsig_ctor = 0) yields a
+   well-formed configuration, so the theorems above apply to every memory that can be constructed with a plain shape *)
+Theorem C11_accepted_configuration_wf s depth wps rps : wf_shape s = true -> 0 <= depth ->
+  forallb (fun p : Z * option Z => wsig_ctor s (snd p) =? 0) wps = true ->
+  wf_md (mk_md (RSPlain s) depth wps rps) = true.
+Proof. exact (mk_md_plain_wf s depth wps rps). Qed.
+Print Assumptions C11_accepted_configuration_wf.
+
+Example ex_accepted_configuration :
+  forallb (fun p : Z * option Z => wsig_ctor (Sh 6 false) (snd p) =? 0) [(0, None); (1, Some 2); (0, Some 6); (0, Some 1)] = true /\
+  map wp_enw (md_wports (mk_md (RSPlain (Sh 6 false)) 5 [(0, None); (1, Some 2); (0, Some 6); (0, Some 1)] [])) = [1; 3; 1; 6] /\
+  wf_md (mk_md (RSArray (Sh 2 false) 4) 3 [(0, Some 2)] []) = true /\
+  wf_md (mk_md (RSStruct [Sh 3 false; Sh 5 true]) 3 [(0, None)] []) = true.
+Proof. vm_compute. repeat split; reflexivity. Qed.
+
+(* shape-castable rows with a non-zero default (data.Struct field defaults): rows not initialised and the read data
+   signals start at the default; the refinement holds from that state as well *)
+Theorem C11_memory_refines_array_default md dflt init evs : wf_md md = true -> forallb (ev_ok md) evs = true ->
+  mem_run md (init_state_d md dflt init) evs = spec_run md (init_state_d md dflt init) evs.
+Proof. intros Hmd Hok. apply run_refines; auto. apply init_state_d_wf; auto. Qed.
+Print Assumptions C11_memory_refines_array_default.
+
+(* ------------------------------------------------------------------ translated source (translator unit "pysim") *)
+(* coq/Gen/PySimGen.v is regenerated from /repo/amaranth/sim/pysim.py on every run; Proofs/GenEqPySim.v proves the
+   regenerated _PyMemoryState methods equal to ms_read / ms_write / ms_commit of the model. *)
+From V.Proofs Require GenEqPySim.
+From V.Gen Require PySimGen.
+
+Theorem C11_translated_memory_read s depth rows q wk a : depth <= Z.of_nat (length rows) ->
+  PySimGen.PyMemoryState_read (GenEqPySim.mem_obj s depth rows q wk) a = Some (ms_read depth rows a).
+Proof. exact (GenEqPySim.gen_memory_read_eq s depth rows q wk a). Qed.
+Print Assumptions C11_translated_memory_read.
+
+(* write(addr, value, mask): the queue after the call is ms_write's; the object registers itself in `pending` exactly
+   when the address is a row *)
+Theorem C11_translated_memory_write i s depth rows q wk p a v m : depth <= Z.of_nat (length rows) -> 0 <= width s ->
+  PySimGen.PyMemoryState_write i (GenEqPySim.mem_obj s depth rows q wk) p a v (Some m) =
+  Some (GenEqPySim.mem_obj s depth rows (ms_write s depth rows q a v m) wk,
+        if in_depth depth a then PySimGen.py_set_add Nat.eqb p i else p).
+Proof. exact (GenEqPySim.gen_memory_write_eq i s depth rows q wk p a v m). Qed.
+Print Assumptions C11_translated_memory_write.
+
+Theorem C11_translated_memory_write_nomask i g p a v :
+  PySimGen.PyMemoryState_write i g p a v None = PySimGen.PyMemoryState_write i g p a v (Some (-1)).
+Proof. exact (GenEqPySim.gen_memory_write_nomask i g p a v). Qed.
+Print Assumptions C11_translated_memory_write_nomask.
+
+(* commit(): data becomes ms_commit, the queue is emptied, the wakers run first; `changed` accumulates over the rows *)
+Theorem C11_translated_memory_commit (W : Type) (call : nat -> unit -> W -> bool * W) s depth rows q wk w :
+  q <> [] -> Forall (fun kv => 0 <= fst kv < Z.of_nat (length rows)) q ->
+  PySimGen.PyMemoryState_commit call (GenEqPySim.mem_obj s depth rows q wk) w =
+  let (wk', w') := GenEqPySim.retain call tt wk w in
+  Some (GenEqPySim.writes_change rows q, GenEqPySim.mem_obj s depth (ms_commit rows q) [] wk', w').
+Proof. exact (GenEqPySim.gen_memory_commit_eq call s depth rows q wk w). Qed.
+Print Assumptions C11_translated_memory_commit.
+
+(* ... and that flag says exactly whether the data changed *)
+Theorem C11_translated_memory_commit_changed q rows :
+  NoDup (map fst q) -> Forall (fun kv => 0 <= fst kv < Z.of_nat (length rows)) q ->
+  (GenEqPySim.writes_change rows q = true <-> ms_commit rows q <> rows).
+Proof. exact (GenEqPySim.writes_change_spec q rows). Qed.
+Print Assumptions C11_translated_memory_commit_changed.
